@@ -130,3 +130,42 @@ def gr_glue(c):
     c.assumptions.append("session-end classes 'hold' and 'local_cease' are decided at model level and by the shared eligibility "
                          "function only; the driver replay executes io / remote cease / hard reset / remote non-cease / local "
                          "non-cease / admin shutdown / admin-down")
+
+
+def inbound_loops(c):
+    """C09 inbound half: the Installed table of Propagation.tla on a real session."""
+    import json
+    import os
+    import vf
+    import C09
+    cases = getattr(c, "inbound_cases", None)
+    if not cases:
+        raise vf.ToolError("no inbound cases emitted")
+    inp = os.path.join(vf.WORK, "C09.inb.in")
+    outp = os.path.join(vf.WORK, "C09.inb.out")
+    with open(inp, "w") as f:
+        for j in cases:
+            k = j["case"]
+            f.write(f"in {k['peer']} {1 if k['confed'] else 0} {k['loop']}\n")
+    if os.path.exists(outp):
+        os.remove(outp)
+    rc, out = vf.daemon_test("event::verif_harness::inbound_replay", env={"VERIF_IN": inp, "VERIF_OUT": outp}, timeout=1500)
+    if rc != 0 or not os.path.exists(outp):
+        raise vf.ToolError(f"inbound_replay failed rc={rc}:\n{out[-3000:]}")
+    got = {j["i"]: j for j in vf.read_jsonl(outp)}
+    for i, j in enumerate(cases):
+        g = got.get(i)
+        if g is None:
+            raise vf.ToolError(f"no inbound result {i}")
+        if g["note"]:
+            raise vf.ToolError(f"inbound harness: {g['note']} for {j['case']}")
+        if g["installed"] != j["installed"]:
+            c.violation("prop.inbound", {"case": j["case"], "expected_installed": j["installed"], "actual_installed": g["installed"]},
+                        {"spec": "Propagation (inbound)", "case": j["case"]})
+        elif j["case"]["peer"] == "ebgp" and g["kept"]:
+            c.violation("prop.inbound_ibgp_attr", {"case": j["case"], "kept": g["kept"],
+                                                   "why": "iBGP-only attribute from an external peer was believed"},
+                        {"spec": "Propagation (inbound)", "case": j["case"]})
+    c.cov["evaluations"] += len(cases)
+    c.cov["distinct_nontrivial"] += sum(1 for j in cases if not j["installed"])
+    c.cov["parts"]["inbound"] = {"cases": len(cases)}
